@@ -326,6 +326,14 @@ pub fn run_batch<E: Engine>(engine: &E, base_seed: u64, tier: Tier, runs: u64, o
         cut_short: bool,
     }
 
+    // external monitors (AddressSanitizer) kill the process without unwinding: when asked, every worker records the
+    // index of the run in flight in its slot of a small file (one pwrite per run), so that the run can be identified
+    let inflight_file: Option<std::fs::File> = std::env::var("ZSIM_INFLIGHT_FILE").ok().and_then(|p| std::fs::OpenOptions::new().create(true).write(true).truncate(true).open(p).ok());
+    if let Some(f) = &inflight_file {
+        let _ = f.set_len(8 * 64);
+    }
+    let inflight_file = &inflight_file;
+
     let parts: Vec<Part<E::Plan>> = std::thread::scope(|scope| {
         // watchdog thread: the only place real time is read
         {
@@ -392,6 +400,10 @@ pub fn run_batch<E: Engine>(engine: &E, base_seed: u64, tier: Tier, runs: u64, o
                             let seed = run_seed(base_seed, id, i);
                             inflight[w].1.store(start.elapsed().as_millis() as u64, Ordering::Relaxed);
                             inflight[w].0.store(i + 1, Ordering::Relaxed);
+                            if let Some(f) = inflight_file {
+                                use std::os::unix::fs::FileExt;
+                                let _ = f.write_at(&(i + 1).to_le_bytes(), 8 * w as u64);
+                            }
                             if cfg!(miri) {
                                 // Miri aborts the process on undefined behaviour: say which run is in flight
                                 eprintln!("MIRI-RUN index={i}");
@@ -670,9 +682,9 @@ pub fn check<E: Engine>(engine: &E, tier: Tier, opts: &CheckOpts) -> CheckResult
                 println!("VIOLATION property={id} replay={}", p.display());
                 println!("  class={class} count={count} first_index={} detail={}", found.index, found.violation.detail);
                 reported.push(json!({"class": class, "count": count, "first_index": found.index, "replay": p.display().to_string(), "detail": found.violation.detail}));
-                if exit == 0 {
-                    exit = 1;
-                }
+                // a reproduced violation decides the exit status even if other runs of the batch hit harness errors
+                // (on a broken tree the workload's own sanity checks may trip as a consequence)
+                exit = 1;
             }
             Err(e) => {
                 println!("HARNESS-ERROR {}", e.msg);
